@@ -319,6 +319,7 @@ pub fn audio_frame(cfg: &CfgGene, g: &AGene, idx: usize) -> (Vec<u8>, Vec<u8>) {
             extra: if g.shape & 8 != 0 { 3 } else { 0 },
             fill: (g.shape >> 4) & 1,
             corrupt: 0,
+            misc: (g.shape as u16).wrapping_mul(0x0123) ^ g.size,
         };
         let (f, exp) = ag.build(tag);
         (f, exp.expect("uncorrupted ADTS gene must be valid"))
@@ -553,6 +554,7 @@ pub fn size_strategy() -> impl Strategy<Value = u16> {
         2 => 1u16..16,
         1 => 300u16..5000,
         1 => 5000u16..=65000,
+        1 => 65480u16..=65535,
     ]
 }
 
